@@ -423,6 +423,16 @@ func (r *runner) exec(e Event) {
 			h := r.wd.blocks[e.Block].Hash
 			_, err = r.n.Chain.AllValidators(&h)
 		}
+	case "waiter":
+		// Chain.BlockWaiter as the wallet, the contract tracer and the websocket notifier use it:
+		// either wait for the height (bounded) or drop the channel (they do so on a rescan / shutdown)
+		ch := r.n.Chain.BlockWaiter(uint64(e.Ms))
+		if e.API == "wait" {
+			select {
+			case <-ch:
+			case <-time.After(3 * time.Second):
+			}
+		}
 	case "sleep":
 		time.Sleep(time.Duration(e.Ms) * time.Millisecond)
 	}
